@@ -2,6 +2,7 @@ package system
 
 import (
 	"context"
+	"database/sql"
 	"errors"
 	"fmt"
 	"sync"
@@ -30,7 +31,7 @@ func (c *controllerFacade) handleState(ctx context.Context, dryRun bool, fn func
 		return fn(c.Controller)
 	}
 
-	ctrl, tx, err := c.BeginTX(ctx, nil)
+	ctrl, tx, err := c.Controller.BeginTX(ctx, nil)
 	if err != nil {
 		return err
 	}
@@ -108,6 +109,80 @@ func (c *controllerFacade) handleState(ctx context.Context, dryRun bool, fn func
 		}
 	}
 
+	return nil
+}
+
+// BeginTX hands out a transactional controller (the atomic bulk path uses it). Requests
+// made through it never pass handleState, so the transition out of `initializing` —
+// ledger lock, state update, resynchronisation of the id sequences after an import —
+// has to happen here, inside the returned sql transaction; the cached state follows the
+// commit of that transaction.
+func (c *controllerFacade) BeginTX(ctx context.Context, options *sql.TxOptions) (ledgercontroller.Controller, *bun.Tx, error) {
+	ctrl, tx, err := c.Controller.BeginTX(ctx, options)
+	if err != nil {
+		return nil, nil, err
+	}
+
+	c.mu.RLock()
+	l := c.ledger
+	c.mu.RUnlock()
+	if l.State == ledger.StateInUse {
+		return ctrl, tx, nil
+	}
+
+	if err := withLock(ctx, ctrl, func(_ ledgercontroller.Controller, _ bun.IDB) error {
+		return markInUse(ctx, tx, l)
+	}); err != nil {
+		_ = ctrl.Rollback(ctx)
+		return nil, nil, err
+	}
+
+	return &txControllerFacade{Controller: ctrl, parent: c}, tx, nil
+}
+
+// txControllerFacade marks the ledger in-use in the parent's cache once its sql
+// transaction (which carries the state transition) is committed.
+type txControllerFacade struct {
+	ledgercontroller.Controller
+	parent *controllerFacade
+}
+
+func (t *txControllerFacade) Commit(ctx context.Context) error {
+	if err := t.Controller.Commit(ctx); err != nil {
+		return err
+	}
+	t.parent.mu.Lock()
+	t.parent.ledger.State = ledger.StateInUse
+	t.parent.mu.Unlock()
+	return nil
+}
+
+// markInUse moves the ledger from initializing to in-use inside tx and, when it did,
+// resynchronises the transaction and log id sequences with the (imported) content.
+func markInUse(ctx context.Context, tx *bun.Tx, l ledger.Ledger) error {
+	ret, err := tx.NewUpdate().
+		Model(&l).
+		Set("state = ?", ledger.StateInUse).
+		Where("id = ? and state = ?", l.ID, ledger.StateInitializing).
+		Exec(ctx)
+	if err != nil {
+		return err
+	}
+	rowsAffected, err := ret.RowsAffected()
+	if err != nil {
+		return err
+	}
+	if rowsAffected == 0 {
+		return nil
+	}
+	for _, seq := range [][2]string{{"transaction_id", "transactions"}, {"log_id", "logs"}} {
+		if _, err := tx.NewRaw(fmt.Sprintf(
+			`select setval('"%s"."%s_%d"', (select max(id) from "%s".%s where ledger = '%s')::bigint)`,
+			l.Bucket, seq[0], l.ID, l.Bucket, seq[1], l.Name,
+		)).Exec(ctx); err != nil {
+			return fmt.Errorf("failed to update %s sequence value: %w", seq[1], err)
+		}
+	}
 	return nil
 }
 
